@@ -339,7 +339,8 @@ where
     F: Small + std::fmt::Debug,
     F::Signed: std::fmt::Debug,
 {
-    let a0: Vec<F> = (0..c.la).map(|i| F::small(i, c.salt)).collect();
+    // one salt in four: runs of two equal neighbouring frames (an element-wise operation must not care)
+    let a0: Vec<F> = (0..c.la).map(|i| F::small(if c.salt % 4 == 3 { i / 2 } else { i }, c.salt)).collect();
     let b_same: Vec<F> = (0..c.lb).map(|i| F::small(i + 13, c.salt)).collect();
     let b_signed: Vec<F::Signed> = (0..c.lb).map(|i| F::small_signed(i, c.salt)).collect();
     let amp = F::amp(c.salt);
@@ -453,7 +454,7 @@ pub fn run(ctx: &mut Ctx) {
         for &op in &SLICE_OPS {
             for la in 0..=6 {
                 for lb in 0..=(if op == SliceOp::ZipMapMixed { 24 } else { 6 }) {
-                    for salt in 0..3 {
+                    for salt in 0..4 {
                         cases.push(OpCase { ty, op, la, lb, salt });
                     }
                 }
@@ -461,6 +462,41 @@ pub fn run(ctx: &mut Ctx) {
         }
     }
     ctx.enumerate("ops/all-small-length-pairs", true, cases.into_iter(), check_op);
+    // sums that land exactly on the ends of the range (I24 and i16 frames): MAX - k plus k, MIN + k minus k
+    #[derive(Clone, Debug, Serialize, Deserialize)]
+    struct EndCase {
+        k: i32,
+        with_amp: bool,
+    }
+    let cases: Vec<EndCase> = (1..=40).flat_map(|k| [EndCase { k: k * 173, with_amp: false }, EndCase { k: k * 173, with_amp: true }]).collect();
+    ctx.enumerate("ops/sums-landing-on-the-range-ends", true, cases.into_iter(), |c: &EndCase, st: &mut Stats| {
+        st.nt(true);
+        let k = c.k;
+        ensure!(k > 0 && k < 8000, "bad case: k out of range");
+        let r = pan::catch(|| {
+            let mk = |v: i32| [I24::new(v).unwrap()];
+            let (max, min) = (8_388_607, -8_388_608);
+            let mut hi = vec![mk(max - k); 3];
+            let mut lo = vec![mk(min + k); 3];
+            let mut hi16 = vec![[i16::MAX - k as i16, i16::MIN + k as i16]; 2];
+            if c.with_amp {
+                // twice the distance at gain 0.5 (2k x 0.5 is exact in f32)
+                ds::add_in_place_with_amp_per_channel(&mut hi[..], &vec![mk(2 * k); 3][..], [0.5f32]);
+                ds::add_in_place_with_amp_per_channel(&mut lo[..], &vec![mk(-2 * k); 3][..], [0.5f32]);
+                ds::add_in_place_with_amp_per_channel(&mut hi16[..], &vec![[2 * k as i16, -2 * k as i16]; 2][..], [0.5f32, 0.5]);
+            } else {
+                ds::add_in_place(&mut hi[..], &vec![mk(k); 3][..]);
+                ds::add_in_place(&mut lo[..], &vec![mk(-k); 3][..]);
+                ds::add_in_place(&mut hi16[..], &vec![[k as i16, -(k as i16)]; 2][..]);
+            }
+            (hi.iter().map(|f| f[0].inner()).collect::<Vec<i32>>(), lo.iter().map(|f| f[0].inner()).collect::<Vec<i32>>(), hi16)
+        });
+        let what = if c.with_amp { "add_in_place_with_amp_per_channel (gain 0.5, addend 2k)" } else { "add_in_place" };
+        let (hi, lo, hi16) = r.map_err(|p| format!("{} with k = {}: a sum that lands exactly on MAX / MIN panicked: {}", what, k, p))?;
+        ensure!(hi.iter().all(|v| *v == 8_388_607) && lo.iter().all(|v| *v == -8_388_608), "{} with k = {}: [I24; 1] MAX - k + k = {:?}, MIN + k - k = {:?}", what, k, hi, lo);
+        ensure!(hi16.iter().all(|f| *f == [i16::MAX, i16::MIN]), "{} with k = {}: [i16; 2] sums landing on MAX / MIN give {:?}", what, k, hi16);
+        Ok(())
+    });
     let strat = (0usize..8, 0usize..7, 0usize..300, 0usize..300, any::<u32>(), any::<bool>()).prop_map(|(t, o, la, lb, salt, same)| OpCase {
         ty: FRAME_TYS[t],
         op: SLICE_OPS[o],
